@@ -16,7 +16,8 @@ from vf.engines import sx
 from vf.seams import dbapi
 
 LEVEL = 'model_checking'
-ENDS = ('end', 'raise', 'rollback+end', 'end+commit-fails')
+ENDS = ('end', 'raise', 'rollback+end', 'end+commit-fails', 'generator-closed', 'generator-thrown-into')
+GEN_ENDS = ('generator-closed', 'generator-thrown-into')      # the session of a @db_session generator suspended at a yield
 
 def stale_ops(env, labels):
     ops = []
@@ -80,28 +81,52 @@ def scenario(env, sub, name, fixture, hist, preread, end, strict, ops, presigs):
     try:
         # run the history in a session with the requested strictness
         x.leave(ZeroDivisionError('vf'))
-        x.sess = env.orm.db_session(strict=strict); x.sess.__enter__(); x.refs = {}
-        x.replay(hist)
-        if x.skipped: return
-        view = None
-        if preread:
-            o = x.apply(('view_noflush',))
-            if o[0] != 'ok': return
-            view = o[1]
-        elif preread is False:
-            o = x.apply(('resolve', tuple(l for root in env.root_entities for l in env.labels_of(root, (1, 2, 3))
-                                          if True)))
-            x.skipped = False
-        # preread == 'none': only the objects the history itself produced (the session may never touch the database)
-        objs = dict(x.refs)
-        if not objs: return
+        box = {}
+        def prelude(commit_first=False):
+            x.refs = {}
+            x.replay(hist)
+            if x.skipped: return
+            if commit_first:                        # Pony refuses to suspend a generator with pending changes
+                env.orm.commit(); x.sync_pks()
+            view = None
+            if preread:
+                o = x.apply(('view_noflush',))
+                if o[0] != 'ok': return
+                view = o[1]
+            elif preread is False:
+                o = x.apply(('resolve', tuple(l for root in env.root_entities for l in env.labels_of(root, (1, 2, 3))
+                                              if True)))
+                x.skipped = False
+            # preread == 'none': only the objects the history itself produced (the session may never touch the database)
+            box['objs'] = dict(x.refs)
+            box['view'] = view
+        gen = None
+        if end in GEN_ENDS:
+            def body():
+                prelude(commit_first=True)
+                yield 1
+                yield 2
+            gen = env.orm.db_session(strict=strict)(body)()
+            try: next(gen)                          # the history ran inside the generator's session, which is now suspended
+            except Exception: return                # the history's own commit fails: not this property
+        else:
+            x.sess = env.orm.db_session(strict=strict); x.sess.__enter__()
+            prelude()
+        if not box.get('objs'):
+            if gen is not None: gen.close()
+            return
+        objs, view = box['objs'], box['view']
         status = dict((l, o_._status_) for l, o_ in objs.items())
         # end the session
         if end == 'rollback+end':
             x.apply(('rollback',))
         s, x.sess = x.sess, None
         try:
-            if end == 'raise': s.__exit__(ZeroDivisionError, ZeroDivisionError('vf'), None)
+            if end == 'generator-closed': gen.close()
+            elif end == 'generator-thrown-into':
+                try: gen.throw(ZeroDivisionError('vf'))
+                except ZeroDivisionError: pass
+            elif end == 'raise': s.__exit__(ZeroDivisionError, ZeroDivisionError('vf'), None)
             elif end == 'end+commit-fails':
                 import sqlite3
                 def handler(kind, sql, args, con):
